@@ -1,0 +1,53 @@
+package functions
+
+import (
+	"fmt"
+
+	"diagonal.works/b6"
+	"github.com/golang/geo/s2"
+)
+
+// Argument checks shared by the functions below. Values passed by clients can
+// be nil (for example the result of find-feature for an ID that doesn't
+// exist), or a geometry of a kind the function can't handle; these return an
+// error to the caller, rather than panicking.
+
+func requireGeometry(function string, g b6.Geometry) error {
+	if g == nil {
+		return fmt.Errorf("%s: expected a geometry, found nil", function)
+	}
+	return nil
+}
+
+func requireArea(function string, a b6.Area) error {
+	if a == nil {
+		return fmt.Errorf("%s: expected an area, found nil", function)
+	}
+	return nil
+}
+
+func requireFeature(function string, f b6.Feature) error {
+	if f == nil {
+		return fmt.Errorf("%s: expected a feature, found nil", function)
+	}
+	return nil
+}
+
+func requireIdentifiable(function string, id b6.Identifiable) error {
+	if id == nil {
+		return fmt.Errorf("%s: expected a feature or an id, found nil", function)
+	}
+	return nil
+}
+
+// polylineOf returns the polyline of g, or an error if g isn't a path with
+// at least one point.
+func polylineOf(function string, g b6.Geometry) (*s2.Polyline, error) {
+	if err := requireGeometry(function, g); err != nil {
+		return nil, err
+	}
+	if g.GeometryType() != b6.GeometryTypePath || g.GeometryLen() == 0 {
+		return nil, fmt.Errorf("%s: expected a path with at least one point", function)
+	}
+	return g.Polyline(), nil
+}
